@@ -63,6 +63,8 @@ type Scenario struct {
 	RacePkgs []string
 	// RaceIgnoreFuncs: regexp of function names excluded (configuration calls the property does not cover).
 	RaceIgnore *regexp.Regexp
+	// Rare: if > 0 the scenario takes only every Rare-th sampled run index (small spaces).
+	Rare int
 	// Quanta: virtual CPU time charged per yield (choices); nil = simulator default.
 	Quanta []int64
 	// Cells > 0: the scenario enumerates that many cells exhaustively (one run each)
